@@ -112,6 +112,9 @@ type Finding struct {
 	Text     string `json:"text"`
 }
 
+// loadFindings parses /verif/known_findings.txt. Line formats:
+//   known: property=<id> key="<rule> <construct>" <what fails>
+//   fixed: property=<id> <commit> <what failed>          (suppresses nothing)
 func loadFindings(path string) ([]Finding, error) {
 	b, err := os.ReadFile(path)
 	if err != nil {
@@ -120,13 +123,49 @@ func loadFindings(path string) ([]Finding, error) {
 		}
 		return nil, err
 	}
-	var fs struct {
-		Findings []Finding `json:"findings"`
+	var out []Finding
+	for ln, line := range strings.Split(string(b), "\n") {
+		line = strings.TrimSpace(line)
+		if line == "" || strings.HasPrefix(line, "#") {
+			continue
+		}
+		var f Finding
+		switch {
+		case strings.HasPrefix(line, "known:"):
+			f.Status = "known"
+			line = strings.TrimSpace(strings.TrimPrefix(line, "known:"))
+		case strings.HasPrefix(line, "fixed:"):
+			f.Status = "fixed"
+			line = strings.TrimSpace(strings.TrimPrefix(line, "fixed:"))
+		default:
+			return nil, fmt.Errorf("%s:%d: line must start with known: or fixed:", path, ln+1)
+		}
+		if !strings.HasPrefix(line, "property=") {
+			return nil, fmt.Errorf("%s:%d: missing property=", path, ln+1)
+		}
+		sp := strings.IndexByte(line, ' ')
+		if sp < 0 {
+			return nil, fmt.Errorf("%s:%d: truncated", path, ln+1)
+		}
+		f.Property = line[len("property="):sp]
+		rest := strings.TrimSpace(line[sp:])
+		if f.Status == "known" {
+			if !strings.HasPrefix(rest, "key=\"") {
+				return nil, fmt.Errorf("%s:%d: known entry needs key=\"...\"", path, ln+1)
+			}
+			rest = rest[len("key=\""):]
+			q := strings.IndexByte(rest, '"')
+			if q < 0 {
+				return nil, fmt.Errorf("%s:%d: unterminated key", path, ln+1)
+			}
+			f.Key = rest[:q]
+			f.Text = strings.TrimSpace(rest[q+1:])
+		} else {
+			f.Text = rest
+		}
+		out = append(out, f)
 	}
-	if err := json.Unmarshal(b, &fs); err != nil {
-		return nil, err
-	}
-	return fs.Findings, nil
+	return out, nil
 }
 
 // ---- result / evidence ----
